@@ -91,6 +91,8 @@ def run_instance(prog, cfg, exempt=None):
     for b in sorted(fam.values(), key=lambda x: x.name):
         if b.crate == 'samlang_ast':
             continue
+        if b.locals[0].k == 'prim' and b.locals[0].s == 'bool':
+            continue        # a predicate over a node asks a question about its shape; visiting is the caller's job
         cfgb = None
         for bi, bl in enumerate(b.blocks):
             if bl.cleanup:
